@@ -4,7 +4,10 @@ import (
 	"encoding/json"
 	"fmt"
 	"os"
+	"os/exec"
+	"path/filepath"
 	"runtime/debug"
+	"sort"
 	"strings"
 
 	"verif/checker/internal/load"
@@ -155,8 +158,128 @@ func cmdCheck(args []string) (code int) {
 	run.Count("files", p.Files)
 	run.Count("functions", len(p.Decls))
 	c := rules.NewCtx(p, tier, run)
+	rules.CrossCheck = tier == "thorough"
 	check.Fn(c)
+	if tier == "thorough" {
+		if n := rules.CrossChecks(); n > 0 {
+			run.Count("entailments_rechecked_by_evaluation", n)
+		}
+		rules.CrossCheck = false
+		selfTest(id, repo, verif, check, run)
+	}
 	return run.Finish(verif)
+}
+
+// selfTest (thorough tier): every seeded change kept under <verif>/seeded that this property's
+// check is recorded to report is applied to a scratch copy of the current tree (outside /repo and
+// /verif, removed at once) and the check is run on that copy; a check that stays silent on a
+// change it is known to report is broken. Seeds that no longer apply to the tree are skipped.
+func selfTest(id, repo, verif string, check rules.Check, run *report.Run) {
+	metas, _ := filepath.Glob(filepath.Join(verif, "seeded", "*", "meta.json"))
+	sort.Strings(metas)
+	for _, mp := range metas {
+		b, err := os.ReadFile(mp)
+		if err != nil {
+			continue
+		}
+		var meta struct {
+			Property string   `json:"property"`
+			CaughtBy []string `json:"caught_by"`
+		}
+		if json.Unmarshal(b, &meta) != nil {
+			continue
+		}
+		mine := false
+		for _, cb := range meta.CaughtBy {
+			if cb == id {
+				mine = true
+			}
+		}
+		if !mine {
+			continue
+		}
+		name := filepath.Base(filepath.Dir(mp))
+		patch := filepath.Join(filepath.Dir(mp), "patch.diff")
+		tmp, err := os.MkdirTemp("", "verif-selftest-")
+		if err != nil {
+			run.Break("self-test: cannot create a scratch directory: " + err.Error())
+			return
+		}
+		func() {
+			defer os.RemoveAll(tmp)
+			if err := copyTree(repo, tmp); err != nil {
+				run.Break("self-test: cannot copy the tree: " + err.Error())
+				return
+			}
+			cmd := exec.Command("git", "apply", "--whitespace=nowarn", patch)
+			cmd.Dir = tmp
+			cmd.Env = append(os.Environ(), "GIT_DIR=/nonexistent", "GIT_CEILING_DIRECTORIES="+filepath.Dir(tmp))
+			if out, err := cmd.CombinedOutput(); err != nil {
+				cmd2 := exec.Command("patch", "-p1", "-s", "-i", patch)
+				cmd2.Dir = tmp
+				if out2, err2 := cmd2.CombinedOutput(); err2 != nil {
+					run.Note(fmt.Sprintf("self-test: seeded change %s does not apply to the current tree, skipped (%s %s)", name, strings.TrimSpace(string(out)), strings.TrimSpace(string(out2))))
+					run.Count("selftest_skipped", 1)
+					return
+				}
+			}
+			p2, err := load.Load(tmp, check.NeedSSA)
+			if err != nil {
+				run.Note("self-test: seeded change " + name + " does not type-check on the current tree, skipped")
+				run.Count("selftest_skipped", 1)
+				return
+			}
+			sub := report.NewRun(id, "quick")
+			func() {
+				defer func() {
+					if r := recover(); r != nil {
+						sub.Break(fmt.Sprint("panic: ", r))
+					}
+				}()
+				check.Fn(rules.NewCtx(p2, "quick", sub))
+			}()
+			fresh, broken := sub.Fresh(verif)
+			run.Count("selftest_seeds", 1)
+			run.Oblige(len(fresh)+len(broken) > 0)
+			if len(fresh)+len(broken) == 0 {
+				run.Break("self-test: the check is silent on the seeded change " + name + " which it is recorded to report")
+				return
+			}
+			what := ""
+			if len(fresh) > 0 {
+				what = fresh[0].Rule + " " + fresh[0].Site
+			} else {
+				what = "fails closed: " + broken[0]
+			}
+			run.Note("self-test: seeded change " + name + " is reported (" + what + ")")
+		}()
+	}
+}
+
+func copyTree(src, dst string) error {
+	return filepath.Walk(src, func(path string, info os.FileInfo, err error) error {
+		if err != nil {
+			return err
+		}
+		rel, _ := filepath.Rel(src, path)
+		if rel == "." {
+			return nil
+		}
+		if info.IsDir() {
+			if info.Name() == ".git" {
+				return filepath.SkipDir
+			}
+			return os.MkdirAll(filepath.Join(dst, rel), 0o755)
+		}
+		if !info.Mode().IsRegular() {
+			return nil
+		}
+		b, err := os.ReadFile(path)
+		if err != nil {
+			return err
+		}
+		return os.WriteFile(filepath.Join(dst, rel), b, 0o644)
+	})
 }
 
 func cmdTerms(args []string) {
